@@ -290,6 +290,8 @@ func (fx *Fx) rootRead(st *State, l *Loc) Val {
 		h := st.heap(l.key, "(Array Int "+l.srt+")")
 		v := Val{T: fmt.Sprintf("(select %s %s)", h, l.ref), S: l.srt, GT: l.T}
 		fx.loadKey = l.key
+		fx.loadFromEntry = strings.HasSuffix(h, "_e0")
+		defer func() { fx.loadFromEntry = false }()
 		v = fx.loaded(st, v)
 		fx.loadKey = ""
 		return v
@@ -333,11 +335,15 @@ func (fx *Fx) loaded(st *State, v Val) Val {
 		if rf := fx.c.refTypeFact(t, v.GT); rf != "" {
 			st.assume(rf)
 		}
+		bound := st.alloc
+		if fx.loadFromEntry && fx.entry != nil {
+			bound = fx.entry.alloc // read from the heap as it was at entry: the referent is older than this activation
+		}
 		switch types.Unalias(v.GT).Underlying().(type) {
 		case *types.Pointer, *types.Chan, *types.Map:
-			st.assume(fmt.Sprintf("(<= %s %s)", t, st.alloc))
+			st.assume(fmt.Sprintf("(<= %s %s)", t, bound))
 		case *types.Slice:
-			st.assume(fmt.Sprintf("(<= (s_base %s) %s)", t, st.alloc))
+			st.assume(fmt.Sprintf("(<= (s_base %s) %s)", t, bound))
 		}
 		v.T = t
 	}
